@@ -460,9 +460,25 @@ class FunctionAnalysis(BaseDomain):
                     in_loop = True
             if not in_loop:
                 states.append(self.interp.post[id(after)])
+                # "later" by position in the function as analysed, not by line number: statements that came in with an
+                # inlined helper keep the helper's line numbers
+                order = {}
+                for i, x in enumerate(ast.walk(self.node)):
+                    order[id(x)] = i
+                # (ast.walk is breadth-first: use a depth-first numbering instead)
+                order = {}
+                cnt = [0]
+
+                def number(nd):
+                    order[id(nd)] = cnt[0]
+                    cnt[0] += 1
+                    for c in ast.iter_child_nodes(nd):
+                        number(c)
+                number(self.node)
+                pos = order.get(id(after), -1)
                 for k, st in self.interp.pre.items():
                     n = self.interp.nodes.get(k)
-                    if n is not None and getattr(n, 'lineno', 0) > line:
+                    if n is not None and order.get(id(n), -1) > pos:
                         states.append(st)
         if not states:
             states = list(self.interp.pre.values()) + list(self.interp.post.values())
